@@ -221,20 +221,31 @@ Definition atfork_of (fns : list lkfn) : option (option (string * string * strin
 Definition handler_names (fns : list lkfn) : list string :=
   match atfork_of fns with Some (Some (p, a, c)) => filter (fun s => negb (String.eqb s "")) [p; a; c] | _ => [] end.
 
-Definition known_names (fns : list lkfn) : list string :=
-  map (fun e => fst (fst e)) expected_core ++ ["snoopy_tsrm_init"] ++ handler_names fns.
+(** functions carrying __attribute__((constructor)): accepted only when all they do is the pthread_once call of the constructor *)
+Definition once_call : lk := KOnce "snoopy_tsrm_init_onceControl" "snoopy_tsrm_init".
+Definition is_load_init (fns : list lkfn) (name : string) : bool :=
+  match find_fn fns name with
+  | Some f => Nat.eqb (lk_nparams f) 0 && lks_eqb (norm (lk_body f)) [once_call]
+  | None => false
+  end.
+Definition preinit_of (fns : list lkfn) (ctors : list string) : bool := existsb (is_load_init fns) ctors.
 
-(** every expected function is present and equal; snoopy_tsrm_init has one of its two shapes; no further function *)
-Definition skeleton_matches (fns : list lkfn) : bool :=
+Definition known_names (fns : list lkfn) (ctors : list string) : list string :=
+  map (fun e => fst (fst e)) expected_core ++ ["snoopy_tsrm_init"] ++ handler_names fns ++ filter (is_load_init fns) ctors.
+
+(** every expected function is present and equal; snoopy_tsrm_init has one of its two shapes; no further function
+    (but a load-time constructor that only performs the pthread_once call) *)
+Definition skeleton_matches (fns : list lkfn) (ctors : list string) : bool :=
   forallb (fn_matches fns) expected_core
   && match atfork_of fns with Some _ => true | None => false end
-  && forallb (fun f => str_in (lk_name f) (known_names fns)) fns.
+  && forallb (fun f => str_in (lk_name f) (known_names fns ctors)) fns
+  && forallb (is_load_init fns) ctors.
 
-Lemma skeleton_matches_fn fns name np body :
-  skeleton_matches fns = true -> In (name, np, body) expected_core ->
+Lemma skeleton_matches_fn fns ctors name np body :
+  skeleton_matches fns ctors = true -> In (name, np, body) expected_core ->
   exists f, find_fn fns name = Some f /\ lk_nparams f = np /\ norm (lk_body f) = body.
 Proof.
-  unfold skeleton_matches. intros H Hin. apply andb_true_iff in H as [H _]. apply andb_true_iff in H as [H _].
+  unfold skeleton_matches. intros H Hin. apply andb_true_iff in H as [H _]. apply andb_true_iff in H as [H _]. apply andb_true_iff in H as [H _].
   rewrite forallb_forall in H. specialize (H _ Hin). unfold fn_matches in H.
   destruct (find_fn fns name) as [f|]; [|discriminate]. apply andb_true_iff in H as [H1 H2].
   exists f. split; [reflexivity|]. split; [now apply Nat.eqb_eq|now apply lks_eqb_eq].
@@ -247,10 +258,10 @@ Definition body_of (fns : list lkfn) (name : string) : option (list lk) :=
 Definition clear_repo : list lk :=
   [KGlobal R "first" false; KGlobal R "first" true; KGlobal R "last" true; KGlobal R "count" true].
 
-Definition handlers_of (fns : list lkfn) : option handlers :=
+Definition handlers_of (fns : list lkfn) (ctors : list string) : option handlers :=
   match atfork_of fns with
   | None => None
-  | Some None => Some no_handlers
+  | Some None => Some (mkHandlers false false CNone (preinit_of fns ctors))
   | Some (Some (p, a, c)) =>
     match body_of fns p, body_of fns a, body_of fns c with
     | Some bp, Some ba, Some bc =>
@@ -261,7 +272,7 @@ Definition handlers_of (fns : list lkfn) : option handlers :=
                 else if lks_eqb bc [KUnlock M] then Some CUnlock
                 else if lks_eqb bc [] then Some CNone else None in
       match pr, pa, ch with
-      | Some x, Some y, Some z => Some (mkHandlers x y z)
+      | Some x, Some y, Some z => Some (mkHandlers x y z (preinit_of fns ctors))
       | _, _, _ => None
       end
     | _, _, _ => None
@@ -450,7 +461,7 @@ Definition call_labels (fns : list lkfn) (ops : list op) : option (list label) :
 
 Definition visible (l : label) : bool := match l with LStart | LPriv | LFork => false | _ => true end.
 Definition model_labels (ops : list op) : list label :=
-  let s0 := init (fun t => match t with 0 => [Call ops] | _ => [] end) in
+  let s0 := init repaired_handlers (fun t => match t with 0 => [Call ops] | _ => [] end) in
   filter visible (map snd (snd (run_sched repaired_handlers (repeat 0 (20 + 4 * length ops)) s0))).
 
 Definition probe_ops : list op := [OpWrite Cfg 1; OpRead Ids; OpCount; OpRead Cfg; OpWrite Ids 2].
